@@ -122,9 +122,13 @@ theorem for1_eq (D : Nat) : ∀ (rest : List Nat) (iv : Bi) (ml : Nat) (curr : L
         (if iv.size ≠ (ops.fwd iv a).size then curr.map pairT ++ [(toT iv, ml)] else curr.map pairT) := by
       split <;> simp [pairT]
     rw [hmapc] at hstep
+    have hq1 : ((ops.fwd iv a).size != iv.size) = (iv.size != (ops.fwd iv a).size) := by
+      rw [Bool.eq_iff_iff]; simp only [bne_iff_ne, ne_eq]; exact ⟨fun h e => h e.symm, fun h e => h e.symm⟩
+    have hq2 : (0 == (ops.fwd iv a).size) = ((ops.fwd iv a).size == 0) := by
+      rw [Bool.eq_iff_iff]; simp only [beq_iff_eq]; exact ⟨fun h => h.symm, fun h => h.symm⟩
     by_cases hne : iv.size = (ops.fwd iv a).size
     · by_cases hz : (ops.fwd iv a).size = 0
-      · refine ⟨by simp [SrcFmdSmems.smems_for1, fwdLoop, hf, hsz, hne, hz, e1, e1'], ?_⟩
+      · refine ⟨by simp [SrcFmdSmems.smems_for1, fwdLoop, hf, hsz, hq1, hq2, hne, hz, e1, e1'], ?_⟩
         intro p hp
         simp only [fwdLoop, hsz, hne, hz, ne_eq, not_true_eq_false, if_false, if_true, List.mem_append,
           List.mem_singleton] at hp
@@ -132,11 +136,13 @@ theorem for1_eq (D : Nat) : ∀ (rest : List Nat) (iv : Bi) (ml : Nat) (curr : L
         · exact hc p hp
         · exact hivD
       · simp only [hne, ne_eq, not_true_eq_false, if_false] at hstep
-        refine ⟨by simp [SrcFmdSmems.smems_for1, fwdLoop, hf, hsz, hne, hz, e1, e1', hstep.1], ?_⟩
+        have hz' : ¬ 0 = (ops.fwd iv a).size := fun e => hz e.symm
+        refine ⟨by simp [SrcFmdSmems.smems_for1, fwdLoop, hf, hsz, hq1, hq2, hne, hz, hz', e1, e1', hstep.1], ?_⟩
         simpa [fwdLoop, hsz, hne, hz] using hstep.2
     · by_cases hz : (ops.fwd iv a).size = 0
       · have hne0 : iv.size ≠ 0 := by rw [hz] at hne; exact hne
-        refine ⟨by simp [SrcFmdSmems.smems_for1, fwdLoop, hf, hsz, hne, hne0, hz, e1, e1', pairT], ?_⟩
+        have hne0' : ¬ 0 = iv.size := fun e => hne0 e.symm
+        refine ⟨by simp [SrcFmdSmems.smems_for1, fwdLoop, hf, hsz, hq1, hq2, hne, hne0, hne0', hz, e1, e1', pairT], ?_⟩
         intro p hp
         simp only [fwdLoop, hsz, hne0, hz, ne_eq, not_false_eq_true, if_true, List.mem_append,
           List.mem_singleton] at hp
@@ -145,7 +151,9 @@ theorem for1_eq (D : Nat) : ∀ (rest : List Nat) (iv : Bi) (ml : Nat) (curr : L
         · exact hivD
         · exact hivD
       · simp only [hne, ne_eq, not_false_eq_true, if_true] at hstep
-        refine ⟨by simp [SrcFmdSmems.smems_for1, fwdLoop, hf, hsz, hne, hz, e1, e1', hstep.1, pairT], ?_⟩
+        have hz' : ¬ 0 = (ops.fwd iv a).size := fun e => hz e.symm
+        have hne' : ¬ (ops.fwd iv a).size = iv.size := fun e => hne e.symm
+        refine ⟨by simp [SrcFmdSmems.smems_for1, fwdLoop, hf, hsz, hq1, hq2, hne, hne', hz, hz', e1, e1', hstep.1, pairT], ?_⟩
         simpa [fwdLoop, hsz, hne, hz] using hstep.2
 
 /-! ### the backward sweep: `k`, `j` are `Int`s in the translation, `kk = k + 1`, `jj = j + 1` in the model -/
@@ -208,6 +216,11 @@ theorem for3_eq (a kk d l : Nat) (ha : a ∈ pat ∨ a = 36) (hkk : kk < 2 ^ 63)
       rw [← hhit, k_eq_m1, k_lt_j, isEmpty_map, hsz]
     have hpush' : (((ops.bwd iv a).size != 0) && ((((ops.bwd iv a).size : Nat) : Int) != st.last)) = push := by
       rw [← hpush, hsz]
+    have hhit'' : ((((((((kk : Int) - 1) == (-1 : Int)) || ((ops.bwd iv a).size == 0))) && (st.curr.map pairT).isEmpty) &&
+        (decide (((kk : Int) - 1) < ((st.jj : Int) - 1)))) && (decide (ml ≥ l))) = hit := by
+      rw [Bool.or_comm]; exact hhit'
+    have hpush'' : (((((ops.bwd iv a).size : Nat) : Int) != st.last) && ((ops.bwd iv a).size != 0)) = push := by
+      rw [Bool.and_comm]; exact hpush'
     have hrec := ih ⟨if push then st.curr ++ [(ops.bwd iv a, ml + 1)] else st.curr,
       if push then ((ops.size (ops.bwd iv a) : Nat) : Int) else st.last,
       if hit then kk else st.jj, if hit then st.ms ++ [⟨iv, kk, ml⟩] else st.ms⟩
@@ -220,7 +233,7 @@ theorem for3_eq (a kk d l : Nat) (ha : a ∈ pat ∨ a = 36) (hkk : kk < 2 ^ 63)
     rw [hmodel]
     constructor
     · rw [← hrec.1]
-      simp only [SrcFmdSmems.smems_for3, List.map_cons, pairT, hb, Res.ok_bind, toT_3, e4, hhit', hpush']
+      simp only [SrcFmdSmems.smems_for3, List.map_cons, pairT, hb, Res.ok_bind, toT_3, e4, hhit', hpush', hhit'', hpush'']
       cases hit <;> cases push <;>
         simp [e1, e1', e2, e3, hitT, pairT, hsz]
     · intro hapat hcurr
